@@ -2,8 +2,10 @@
 """Re-runs every stored seeded change against the check that is recorded as catching it
 (tools/trymut.sh: scratch copy of /repo, quick tier) and writes seeded/regression.json."""
 import json, glob, os, subprocess, sys, time
-out = {}
 only = sys.argv[1:]
+out = {}
+if only and os.path.exists('/verif/seeded/regression.json'):
+    out = json.load(open('/verif/seeded/regression.json'))  # partial re-run: keep the other entries
 for d in sorted(glob.glob('/verif/seeded/*/')):
     sid = os.path.basename(d.rstrip('/'))
     if only and sid not in only:
